@@ -74,8 +74,8 @@ def function(ip: Interp, fn: PyConst, args, kwargs, n):
             if not z3.is_expr(a):
                 ip.oos(f'argument of uninterpreted spec function {node.name}', n)
             zargs.append(a)
-        f = ip.w.uf(node.name + '__' + '_'.join(str(a.sort()) for a in zargs), *[a.sort() for a in zargs], S.sort_of(ret))
-        return f(*zargs)
+        f = ip.w.uf(node.name + '__' + '_'.join(str(a.sort()) for a in zargs), *[a.sort() for a in zargs], _kind_sort(ret))
+        return _wrap_kind(ret, f(*zargs))
     if kind == 'spec' and _is_recursive(fn.obj):
         return _rec_spec_call(ip, fn.obj, args, n)
     if kind == 'spec':
@@ -263,6 +263,8 @@ def function(ip: Interp, fn: PyConst, args, kwargs, n):
         f, ident = args
         if f is None:
             return True
+        if isinstance(ident, (FuncVal, Opaque)):
+            return f.ident == ident.ident
         return f.ident == ip.as_int(ident, n)
     if name == 'store':
         a, k, v = args
